@@ -68,6 +68,15 @@ type fileCase struct {
 	text  []byte // armored form (nil unless armored)
 	pt    []byte
 	want  map[string]bool // public halves of the recipients the caller handed to Encrypt
+
+	// degenerate: built by the reference with no stanza a listed identity can
+	// open (degenerate.go); the reference's own verdict on it is a hard error
+	// for malformed stanzas, which is not a premise failure.
+	degenerate bool
+	// noTyped: the file holds a malformed stanza of an identity's own type, for
+	// which a hard error is as legitimate as the no-match error: only "nil
+	// reader, non-nil error" is required.
+	noTyped bool
 }
 
 func (f *fileCase) armored() bool { return f.text != nil }
@@ -188,10 +197,15 @@ func (m *monitor) check(stage, class string, f *fileCase, ids []ident, info map[
 			refOpens = true
 			refNote = fmt.Sprintf("the file the library wrote for the requested recipients also opens with these keys under the reference (%d plaintext bytes, equal: %v): the encrypting side did not bind the recipient",
 				len(o.Plaintext), bytes.Equal(o.Plaintext, f.pt))
+		case f.degenerate:
+			refNote = fmt.Sprintf("the reference refuses the file for these keys (%v)", rerr)
 		default:
 			refOpens = true
 			refNote = fmt.Sprintf("the reference does not report no-match for these keys either (%v)", rerr)
 		}
+	}
+	if f.degenerate {
+		refNote += "; the file was built by the reference with no stanza any of these identities can open, and its MAC and payload are keyed with a value anyone can choose"
 	}
 
 	// the kind of reader the caller holds the file in rotates from case to case
@@ -204,7 +218,7 @@ func (m *monitor) check(stage, class string, f *fileCase, ids []ident, info map[
 	defer closeSrc()
 	r.Tab("file_held_in", kind)
 	list := make([]age.Identity, len(ids))
-	allTyped := true
+	allTyped := !f.noTyped
 	for k, i := range ids {
 		list[k] = i.id
 		if !i.typed() {
@@ -253,6 +267,15 @@ func (m *monitor) check(stage, class string, f *fileCase, ids []ident, info map[
 	}
 	r.Count("no_reader_checked", 1)
 
+	if f.noTyped {
+		var nm *age.NoIdentityMatchError
+		if errors.As(err, &nm) {
+			r.Tab("error_on_malformed_own_type_stanzas(not judged)", "NoIdentityMatchError")
+		} else {
+			r.Tab("error_on_malformed_own_type_stanzas(not judged)", "hard error: "+firstWords(err.Error(), 5))
+		}
+		return
+	}
 	if !allTyped {
 		// SSH identities in the list: "no reader" is all the property asks.
 		// What came back is recorded for the evidence, not judged.
@@ -288,4 +311,12 @@ func (m *monitor) check(stage, class string, f *fileCase, ids []ident, info map[
 	r.Count("causes_checked", int64(len(ids)))
 	r.SampleN(stage, 2, map[string]any{"stage": stage, "class": class, "file": f.desc, "armored": f.armored(), "identities": descsOf(ids),
 		"result": fmt.Sprintf("nil reader; *NoIdentityMatchError with %d causes, each Is(ErrIncorrectIdentity)", len(nm.Errors))})
+}
+
+func firstWords(s string, n int) string {
+	f := strings.Fields(s)
+	if len(f) > n {
+		f = f[:n]
+	}
+	return strings.Join(f, " ")
 }
